@@ -306,7 +306,7 @@ def mon_c09(s, v):
         else:
             d = decs[0]
             rs = canon_props(d["props"]).get(0x1F, [b""])[0]
-            internal = d["rc"] in (0x80, 0x81) and (rs.startswith(b"Malformed") or rs.startswith(b"No reply received") or d["props"] == [] and o.rc not in (0x80, 0x81))
+            internal = d["rc"] in (0x80, 0x81, 0x82) and (rs.startswith((b"Malformed", b"No reply received", b"Unexpected AUTH", b"Re-authentication")) or d["props"] == [] and o.rc not in (0x80, 0x81, 0x82))
             if internal and (d["rc"] != o.rc or canon_props(d["props"]) != canon_props(o.props)):
                 f.append(f"KNOWN-F21: an internal DISCONNECT (rc={d['rc']}, {rs[:40]!r}) queued before async_disconnect was written instead of the caller's (rc={o.rc}); the caller's DISCONNECT never reaches the wire")
             elif d["rc"] != o.rc or (canon_props(d["props"]) != canon_props(o.props) and d["props"] != []):
@@ -462,6 +462,14 @@ def mon_c19(s, v):
 
 
 # ---------------------------------------------------------------- C04 (inbound)
+def decs(w):
+    out = []
+    for b in w["pk"]:
+        try: out.append(ref.decode(b))
+        except ref.Malformed: out.append({"type": "malformed"})
+    return out
+
+
 def mon_c04(s, v):
     f = []
     got = [(i, ev) for i, ev in s.done_seq if ev.startswith("recvd ") and " ok " in ev]
@@ -486,6 +494,22 @@ def mon_c04(s, v):
         if d["type"] == "pubcomp":
             if not any(r["dec"]["type"] == "pubrel" and r["dec"]["pid"] == d["pid"] and r["i"] <= w["i"] for r in v.inb):
                 f.append(f"line {w['i']}: PUBCOMP for id {d['pid']} before any PUBREL with that id was received")
+    # every exchange the broker started is completed once the network stays healthy, and what was acknowledged was delivered
+    if getattr(s, "ending", None) == "cancel" and getattr(s, "heal_ok", False) and not s.crashed:
+        for m in getattr(s, "bq", []):
+            what = "PUBLISH" if m["state"] == "pub" else "PUBREL"
+            f.append(f"inbound QoS {m['qos']} message {m['tag']!r} (id {m['pid']}): the client never answered the broker's {what} during the fault-free suffix (lines {s.heal_start}-{s.heal_end}); the exchange never completes")
+        if getattr(s, "channel_drained", False):
+            for b in getattr(s, "bsent", []):
+                if b["acked"] and b["tag"] not in tags:
+                    # narrow classifiers of the recorded findings F25 / F26: the final acknowledgement (PUBACK / PUBCOMP) reached the broker
+                    # inside a write that the client saw fail with try_again (connection lost right after the bytes were delivered)
+                    want = "puback" if b["qos"] == 1 else "pubcomp"
+                    lost_after_delivery = any(w["result"] == "try_again" and any(k < w["delivered"] and dd["type"] == want and dd.get("pid") == b["pid"]
+                                                                                 for k, dd in enumerate(decs(w))) for w in s.wlog)
+                    msg = f"inbound QoS {b['qos']} message {b['tag']!r} (id {b['pid']}) was acknowledged to the broker ({'PUBACK' if b['qos'] == 1 else 'PUBREC … PUBCOMP'}) but never reached async_receive"
+                    if lost_after_delivery: f.append(("KNOWN-F25: " if b["qos"] == 1 else "KNOWN-F26: ") + msg + f" (its {want.upper()} was delivered by a write that ended with try_again)")
+                    else: f.append(msg)
     # content equality and order per QoS
     seq = {0: [], 1: [], 2: []}
     for r in inbound:
